@@ -315,8 +315,10 @@ func genC14(t *rapid.T, _ *evid.Rec) caseC14 {
 			r.Summary = append(r.Summary, model.Text(s))
 		}
 		for ei := range r.Entries {
-			switch rapid.IntRange(0, 3).Draw(t, "eSumShape") {
+			switch rapid.IntRange(0, 4).Draw(t, "eSumShape") {
 			case 0:
+			case 4: // the summary starts on the line after the entry
+				r.Entries[ei].Summary = model.Texts("", line("esumNext"))
 			case 1:
 				r.Entries[ei].Summary = model.Texts(line("esum"))
 			default:
